@@ -20,11 +20,13 @@ RULE = ("API level (virtual clock): real Throttle / StreamThrottle / ThrottleStr
         "extra delay); zero virtual time when no limit applies.  End to end (simulated network): all five limit levels (client, "
         "server, per connection, per user, per user connection) x direction x 1..3 concurrent sessions x sizes, with StreamIO "
         "read/write instrumented: the same cumulative bound per Throttle object over all streams carrying it, duration <= "
-        "N/L_min + unthrottled duration + eps, per-connection limits independent.  distinct = distinct traces/configurations; "
+        "N/L_min + unthrottled duration + eps, per-connection limits independent.  Re-login (black box, raw peer): PASV/EPSV [+ data "
+        "connect] under user A, USER B, then RETR/STOR: the duration obeys B's limit (lower and upper bound) or is unthrottled "
+        "when B has none.  distinct = distinct traces/configurations; "
         "non-trivial = at least one positive limit applies.")
 ASSUMPTIONS = ["virtual time of the simulated loop; eps = half a byte per reset fold plus float slack",
                "the bound is cumulative since the first limited I/O (an idle period earns credit), as the statement says"]
-REQUIRED_MONITORS = ["bound_checks", "delay_checks", "unlimited_ops", "e2e_bound_checks", "e2e_duration"]
+REQUIRED_MONITORS = ["bound_checks", "delay_checks", "unlimited_ops", "e2e_bound_checks", "e2e_duration", "relogin_duration"]
 ANCHOR_FUNCTIONS = ['common.py:Throttle.wait', 'common.py:Throttle.append', 'common.py:ThrottleStreamIO.wait']
 EXHAUSTIVE = {"quick": False, "thorough": False}
 
@@ -333,10 +335,68 @@ async def e2e(net, hyg, plan):
         SIO.read, SIO.readline, SIO.write = o_read, o_readline, o_write
 
 
+async def relogin(net, hyg, plan):
+    """black box: the limits of the user who is logged in when the transfer runs govern it, also when the passive listener
+    and the data connection were set up under a previous login of the same control connection."""
+    from ..corpus import Session
+    loop = asyncio.get_running_loop()
+    mon = {"relogin_duration": 0}
+    viol = []
+    L, size, d = plan["L"], plan["size"], plan["direction"]
+    key = ("write" if d == "download" else "read") + "_speed_limit" + ("_per_connection" if plan["level"] == "user_connection" else "")
+    users = [aioftp.User("fast", None, base_path="/"), aioftp.User("slow", None, base_path="/", **{key: L}),
+             aioftp.User("slower", None, base_path="/", **{key: L // 3})]
+    w = W.World(net, tree={"/f.bin": payload_bytes(size, 2)}, users=users)
+    await w.start()
+    try:
+        first, second = plan["order"]
+        s = Session(net, 2121, name="relogin")
+        steps = [["connect"], ["login", first], ["cmd", "TYPE I"], [plan.get("pcmd", "pasv")]]
+        if plan["when"] == "after_data":
+            steps += [["data"]]
+        steps += [["login", second]]
+        for st in steps:
+            if not await s.step(st):
+                break
+        t0 = loop.time()
+        if d == "download":
+            await s.step(["xfer", "RETR", "/f.bin"])
+        else:
+            await s.step(["xfer", "STOR", "/up.bin", size, "before", 0, 4096, 0])
+        dur = loop.time() - t0
+        codes = s.outcomes[-1]
+        await s.step(["quit"])
+        mon["relogin_duration"] += 1
+        if [c for c in codes if c.isdigit()] != ["150", "226"]:
+            viol.append({"key": "relogin-transfer-failed", "msg": f"{plan}: transfer after re-login answered {codes}"})
+        else:
+            limit = {"fast": None, "slow": L, "slower": L // 3}[second]
+            if limit is None:
+                if dur > 1.0:
+                    viol.append({"key": f"delay-without-limit:relogin:{plan['level']}",
+                                 "msg": f"{plan}: user {second!r} has no limit but the transfer of {size} bytes took {dur:.3f}s "
+                                        f"(the previous login {first!r} on this control connection was limited)"})
+            else:
+                lower = (size - 4 * 8192 - limit * 0.05) / limit * 0.95
+                upper = size / limit * 1.15 + 1.5
+                if dur < lower:
+                    viol.append({"key": f"faster-than-user-limit-allows:relogin:{plan['level']}",
+                                 "msg": f"{plan}: user {second!r} is limited to {limit} B/s ({key}) but {size} bytes moved in "
+                                        f"{dur:.3f}s (< {lower:.3f}s); data channel set up under the previous login {first!r}"})
+                elif dur > upper:
+                    viol.append({"key": f"slower-than-limit-requires:relogin:{plan['level']}",
+                                 "msg": f"{plan}: limit {limit} B/s needs {size / limit:.3f}s, took {dur:.3f}s"})
+        await w.stop()
+        return {"violations": viol, "monitors": mon, "sig": sig_of(plan), "nontrivial": True,
+                "sample": {"plan": plan, "duration_s": round(dur, 4), "codes": codes}}
+    finally:
+        w.cleanup()
+
+
 def run_case(case):
     out = {"violations": [], "monitors": {}, "sigs": []}
     for plan in case["plans"]:
-        fn = api_trace if plan["kind"] == "api" else e2e
+        fn = {"api": api_trace, "e2e": e2e, "relogin": relogin}[plan["kind"]]
 
         async def main(net, hyg, plan=plan, fn=fn):
             return await fn(net, hyg, plan)
@@ -401,9 +461,20 @@ def gen_cases(tier, seed):
         nsess = rng.choice([1, 1, 2, 3])
         plans.append({"kind": "e2e", "seed": seed * 7 + i, "level": level, "direction": d, "limits": lim, "sessions": nsess,
                       "same_user": rng.randint(1, nsess), "size": rng.choice([1000, 20000, 60000]), "block": rng.choice([512, 8192])})
+    rel = []
+    for order in (["fast", "slow"], ["slow", "fast"], ["slow", "slower"], ["slower", "slow"]):
+        for when in ("after_data", "after_pasv"):
+            for d in ("download", "upload"):
+                for level in ("user", "user_connection"):
+                    if tier == "quick" and rng.random() < 0.5 and not (order == ["fast", "slow"] and when == "after_data"):
+                        continue
+                    rel.append({"kind": "relogin", "seed": seed, "order": order, "when": when, "direction": d, "level": level,
+                                "L": rng.choice([20000, 30000, 60000]), "size": rng.choice([100000, 122880, 200000]),
+                                "pcmd": rng.choice(["pasv", "epsv"])})
     per = 40
     api = [p for p in plans if p["kind"] == "api"]
     ee = [p for p in plans if p["kind"] == "e2e"]
     cases = [{"plans": api[i:i + per]} for i in range(0, len(api), per)]
     cases += [{"plans": ee[i:i + 4]} for i in range(0, len(ee), 4)]
+    cases += [{"plans": rel[i:i + 4]} for i in range(0, len(rel), 4)]
     return cases
